@@ -5,6 +5,7 @@ import itertools
 import tempfile
 import warnings
 import numpy as np
+import pandas as pd
 from .. import scenes, obs, oracles, pipeline, twin
 
 ID, NUM, LEVEL = 'C12', 12, 'exploration'
@@ -23,7 +24,7 @@ ASSUMPTIONS = ['scaling modes other than minmax-scale can only be installed by r
                '(per-call and YAML routes merge into height_scale_kwargs), so route equivalence is checked for minmax-scale',
                'the packaged YAML is parsed independently with ruamel.yaml as the reference for reset']
 REQUIRED = ['routes_4', 'yaml_route', 'poisoned_global', 'unknown_key_warning', 'none_override', 'reset_all_after_nested_edit',
-            'reset_subset_after_nested_edit', 'reset_unknown_name', 'nested_override', 'dict_subclass_sections']
+            'reset_subset_after_nested_edit', 'reset_unknown_name', 'nested_override', 'dict_subclass_sections', 'global_route_with_history']
 SIZES = {'quick': dict(scenes=110, subsets=200), 'thorough': dict(scenes=1500, subsets=2 ** 14)}
 EXHAUSTIVE = {'thorough': 'all 2^14 subsets of the top-level parameter names passed to reset_prms (reset part only)'}
 
@@ -73,6 +74,8 @@ def check_routes(desc):
     viol, tags = [], set()
     sc = scenes.gen_scene(rng, maxrows=250)
     p = scenes.gen_prms(rng, sc, scaling=False, rich=True)['call']
+    if desc['i'] % 2 == 0 and len(sc['names']) >= 2:
+        p['EXCLUDE_FOR_BASE_HEIGHT_CALC'] = [sc['names'][int(rng.integers(len(sc['names'])))]]
     if desc['i'] % 3 == 0:
         p['MSA'] = None
         tags.add('none_override')
@@ -116,11 +119,25 @@ def check_routes(desc):
                   keys=bad[:6], prms=p)
     if dynamic.AMPYCLOUD_PRMS != defaults:
         oracles.V(viol, 'C12', 'a per-call run changed the global parameters')
-    # (2) in-place edits of the global
+    # (2) in-place edits of the global; (2b) the same after another chunk was processed under the same global -
+    # one in which the instruments of the exclusion list do not report
+    other = scenes.frame(scenes.close_chain_scene(scenes.rng_for(desc['s'], NUM, desc['i'], 5), nl=3, nce=1))
+    other['ceilo'] = pd.array(['somewhere-else'] * len(other), dtype=pd.StringDtype())
+
     def r2():
         nested_edit(dynamic.AMPYCLOUD_PRMS, p)
         return ampycloud.run(df)
     run_route('global_edit', r2)
+
+    def r2b():
+        nested_edit(dynamic.AMPYCLOUD_PRMS, p)
+        try:
+            ampycloud.run(other)
+        except Exception:      # noqa - decided by C08
+            pass
+        return ampycloud.run(df)
+    run_route('global_edit_after_another_chunk', r2b)
+    tags.add('global_route_with_history')
     # (3) YAML + set_prms
     def r3():
         with tempfile.TemporaryDirectory(prefix='c12_') as td:
